@@ -15,7 +15,7 @@ from .c01 import PRELUDE, coarse, fmt, impl_des, impl_ser, limited
 MANIFEST = {
 	'text': 'Theorems (Props/C12.v, all Qed, closed under the global context) over the model of ArrayHelpers.write_array_impl/read_array_impl '
 		'with the >= operators regenerated from the source and over the stable sort with Python\'s key comparison: sort is a permutation, '
-		'idempotent, strictly ascending and order-independent on distinct keys; encode and decode succeed only on strictly ascending keys '
+		'idempotent, strictly ascending and order-independent on distinct keys, leaves a canonical array alone and keeps its length; encode and decode succeed only on strictly ascending keys '
 		'(equal keys rejected); two encodable arrays with the same keyed entries are equal (canonical encoding); written arrays read back. '
 		'They hold for any element codec, comparer and transform. Tie: every keyed array of both shipped schemas (found from the regenerated '
 		'schema) is exercised on all permutations of small entry sets incl. equal keys, high-byte-only differences and maximal values: '
